@@ -343,6 +343,10 @@ func (s *Solver) checkPushed(timeoutMs int, vars []*Term, extra []*Term, t0 time
 	case line == "unknown":
 		res = Unknown
 		s.Stats.UnknownN++
+	case strings.Contains(line, "canceled") || strings.Contains(line, "timeout"):
+		// the solver gave up inside its own time limit while still processing the scope
+		res = Unknown
+		s.Stats.UnknownN++
 	default:
 		// (error ...) or anything unexpected: inconclusive; resynchronise by restarting the process
 		s.Stats.Errors++
